@@ -68,8 +68,13 @@ func (w *world) randomTokOpts(rng *mrand.Rand, good bool) tokOpts {
 		} else if rng.Intn(2) == 0 {
 			o.groups = groupPool[rng.Intn(len(groupPool))]
 		}
-		if rng.Intn(3) == 0 {
+		switch rng.Intn(5) {
+		case 0:
 			o.extra = M{"arr": []int{1, 2, 3}, "name": "N N", "nested": M{"a": M{"b": 1}}}
+		case 1:
+			o.extra = M{"org": "a-plain-string", "arr": []int{1, 2, 3, 4, 5, 6, 7}} // {{.Claims.org.id}} fails, {{index .Claims.arr 5}} works
+		case 2:
+			o.extra = M{"org": M{"id": "tenant-7"}}
 		}
 	} else {
 		o.email = emailPool[rng.Intn(len(emailPool))]
@@ -516,7 +521,7 @@ func (w *world) wait(d time.Duration) {
 
 var headerSpoofs = [][2]string{{"X-User-Groups", "admin"}, {"x-user-groups", "admin"}, {"X-USER-ROLES", "admin"}, {"X-User-Roles", "root,admin"}, {"X-Forwarded-User", "root@example.com"},
 	{"x-forwarded-user", "root@example.com"}, {"X-Auth-Request-User", "root@example.com"}, {"X-Auth-Request-Token", "forged.token.value"}, {"X-Tpl-Email", "forged@example.com"}, {"x-tpl-fail", "forged"},
-	{"Authorization", "Bearer forged"}, {"X-Tpl-Sub", "forged"}, {"X-Tpl-Rt", "forged"}, {"X-User-Groups", ""}, {"X-Unrelated", "kept"}}
+	{"Authorization", "Bearer forged"}, {"X-Tpl-Sub", "forged"}, {"X-Tpl-Rt", "forged"}, {"X-User-Groups", ""}, {"X-Unrelated", "kept"}, {"X-Tenant-Id", "forged-tenant"}, {"X-Tenant-ID", "forged-tenant-2"}, {"x-tenant-id", "forged-tenant-3"}, {"X-Lower-Name", "forged"}, {"x-lower-name", "forged"}, {"X-User-Sub", "forged-sub"}}
 
 var acceptPool = []string{"", "text/html", "application/json", "text/event-stream", "text/event-stream, application/json", "*/*", "application/json;q=0.9,text/html", "TEXT/EVENT-STREAM", "text/html,application/xhtml+xml"}
 var methodPool = []string{"GET", "GET", "GET", "POST", "PUT", "DELETE", "OPTIONS", "HEAD", "PATCH"}
@@ -656,6 +661,20 @@ func (w *world) scripted(prop string, sc int, rng *mrand.Rand) {
 			if ir := w.lastInit[w.b]; ir != nil {
 				w.do(reqSpec{rawURI: "/cb?error=access_denied&error_description=" + url.QueryEscape("user said no") + "&state=" + url.QueryEscape(ir.state), note: "provider error"})
 				w.do(reqSpec{rawURI: "/cb?state=" + url.QueryEscape(ir.state), note: "no code"})
+				{ // a provider error together with a code the provider would honour and the browser's own state
+					c := w.authorize(ir)
+					o := w.randomTokOpts(rng, true)
+					o.nonce = c.nonce
+					tok := w.mintWith(o, rng)
+					obs := w.do(reqSpec{rawURI: "/cb?error=access_denied&state=" + url.QueryEscape(ir.state) + "&code=" + c.code, exchange: &tokenAnswer{kind: "ok", idToken: tok.raw}, note: "provider error together with a valid code and the own state"})
+					if obs != nil {
+						calls, _ := obs["calls"].([]string)
+						if a, _ := obs["jar"].(M)["auth"].(bool); a || obs["class"] == "redirectLocal" || len(calls) > 0 {
+							T.oracle("C03", "a callback carrying a provider error yielded a session or contacted the token endpoint", M{"class": obs["class"], "calls": calls}, w.replay())
+						}
+					}
+					w.loggedIn[w.b] = false
+				}
 				bad := &issuedCode{code: "never-issued"}
 				w.callback(ir.state, bad, w.randomTokOpts(rng, true), "", reqSpec{note: "code the provider rejects"}, rng)
 				v := w.viewOf(w.jars[w.b])
@@ -680,6 +699,24 @@ func (w *world) scripted(prop string, sc int, rng *mrand.Rand) {
 			}
 		}
 	case "C04":
+		if w.rateLimit == 10 { // 14 browsers log in one second apart, then all visit a freshly started instance within the same second
+			for b := 0; b < 14; b++ {
+				if b > 0 {
+					w.newBrowser()
+				}
+				o := w.randomTokOpts(rng, true)
+				o.blob, o.expIn = 0, time.Hour
+				w.fullLogin("/start", o, "", rng)
+				w.wait(time.Second)
+			}
+			w.addInstance()
+			for b := 0; b < 14; b++ {
+				w.switchBrowser(b)
+				w.plain("/page", reqSpec{note: "burst of established sessions on a cold instance"}, rng)
+			}
+			w.switchBrowser(0)
+			return
+		}
 		o := w.randomTokOpts(rng, true)
 		o.jti = sc%2 == 0
 		o.nbf = sc%3 == 0
@@ -715,6 +752,11 @@ func (w *world) scripted(prop string, sc int, rng *mrand.Rand) {
 			w.plain(w.randomURI(rng, "C04"), rs, rng)
 		}
 	case "C08":
+		if sc%3 == 1 {
+			w.refreshSweep(sc/3, rng, []string{"", "application/json"}[sc%2])
+			w.plain("/data3", reqSpec{accept: "application/json", note: "JSON client after the refresh attempt"}, rng)
+			return
+		}
 		o := w.randomTokOpts(rng, true)
 		o.expIn = []time.Duration{10 * time.Minute, time.Hour}[sc%2]
 		res := w.fullLogin("/start", o, "rt-0", rng)
@@ -748,7 +790,7 @@ func (w *world) scripted(prop string, sc int, rng *mrand.Rand) {
 	case "C11":
 		o := w.randomTokOpts(rng, true)
 		o.blob = []int{0, 3000, 9000, 30000}[sc%4]
-		rt := []string{"", "rt-short", strings.Repeat("R", 5000)}[sc%3]
+		rt := []string{"", "rt-short", textWithCompressedLen(rng, 4400+4*(sc%50), alnum), strings.Repeat("R", 5000), textWithCompressedLen(rng, 2004, alnum)}[sc%5]
 		res := w.fullLogin("/start", o, rt, rng)
 		if res.ok {
 			for i := 0; i < rng.Intn(3); i++ {
@@ -761,7 +803,9 @@ func (w *world) scripted(prop string, sc int, rng *mrand.Rand) {
 				if rng.Intn(3) == 0 {
 					w.addInstance()
 				}
-				w.plain(w.randomURI(rng, "C11"), reqSpec{note: "after logout"}, rng)
+				// the provider still honours the refresh token it issued (logging out at the middleware does not revoke it there)
+				nt := w.mintWith(w.randomTokOpts(rng, true), rng)
+				w.plain(w.randomURI(rng, "C11"), reqSpec{note: "after logout", refresh: &tokenAnswer{kind: "ok", idToken: nt.raw}}, rng)
 			}
 			if ir := w.lastInit[w.b]; ir != nil && rng.Intn(2) == 0 {
 				w.do(reqSpec{rawURI: "/cb?state=stale&code=stale", note: "stale callback after logout"})
@@ -819,7 +863,11 @@ func (w *world) scripted(prop string, sc int, rng *mrand.Rand) {
 			}
 		}
 	case "C16":
-		w.visit("/start", reqSpec{})
+		if sc%2 == 0 { // markup in the query of the URI the login will remember (raw, as a browser or attacker page may send it)
+			w.visit("/app?q="+[]string{"\"><script>verif-marker</script>", "'><img/src=x/onerror=verif-marker>", "x\"onmouseover=\"verif-marker", "<verif-marker>"}[sc/2%4], reqSpec{note: "request whose URI carries markup"})
+		} else {
+			w.visit("/start", reqSpec{})
+		}
 		ir := w.lastInit[w.b]
 		st := ""
 		if ir != nil {
@@ -854,6 +902,10 @@ func (w *world) scripted(prop string, sc int, rng *mrand.Rand) {
 			w.do(rs)
 		}
 	case "C06", "C10":
+		if prop == "C06" && sc%2 == 1 {
+			w.refreshSweep(sc/2, rng, []string{"", "application/json"}[sc%4/2])
+			return
+		}
 		o := w.randomTokOpts(rng, sc%3 == 0)
 		res := w.fullLogin("/start", o, []string{"", "rt-1"}[sc%2], rng)
 		if !res.ok && res.obs != nil {
@@ -864,6 +916,10 @@ func (w *world) scripted(prop string, sc int, rng *mrand.Rand) {
 			}
 		}
 	case "C01":
+		if sc%3 == 2 {
+			w.refreshSweep(sc/3, rng, "")
+			return
+		}
 		if sc%2 == 0 {
 			w.fullLogin("/start", w.randomTokOpts(rng, true), []string{"", "rt-1"}[sc%2], rng)
 			w.snapshot()
@@ -898,6 +954,9 @@ func (w *world) scripted(prop string, sc int, rng *mrand.Rand) {
 		}
 	case "C15":
 		u := rawURIs[rng.Intn(len(rawURIs))]
+		if sc%3 == 0 { // over-long URI: only the query is long
+			u = []string{"/./%5Cevil.test/", "/a/../%5Cevil.test/", "/%09/evil.test/", "/./%2Fevil.test/", "/ok/path"}[sc/3%5] + "?pad=" + strings.Repeat("p", 1000+rng.Intn(300))
+		}
 		rs := w.randomReqSpec(rng, "C15")
 		rs.method = "GET"
 		rs.note = "initiate from an odd URI"
@@ -908,6 +967,54 @@ func (w *world) scripted(prop string, sc int, rng *mrand.Rand) {
 			w.callback(ir.state, w.authorize(ir), w.randomTokOpts(rng, true), "", reqSpec{xfProto: rs.xfProto, xfHost: rs.xfHost, note: "callback: post-login redirect"}, rng)
 		}
 	}
+}
+
+// refreshSweep: login with a refresh token, let the ID token expire (or come within the grace period), then a request whose refresh
+// grant is answered with answer kind number `kind` (all kinds are visited systematically over the scenarios)
+func (w *world) refreshSweep(kind int, rng *mrand.Rand, accept string) {
+	o := w.randomTokOpts(rng, true)
+	o.expIn = 10 * time.Minute
+	res := w.fullLogin("/start", o, "rt-sweep", rng)
+	if !res.ok {
+		return
+	}
+	tok := w.loginTok[w.b]
+	left := tok.exp - time.Now().Unix()
+	w.wait(time.Duration(left+[]int64{-5, 30, 200, 4000}[kind%4]) * time.Second)
+	var a *tokenAnswer
+	mk := func(mod func(o *tokOpts)) *hTok {
+		o := w.randomTokOpts(rng, true)
+		mod(&o)
+		return w.mintWith(o, rng)
+	}
+	switch kind % 12 {
+	case 0:
+		a = &tokenAnswer{kind: "noidtoken"}
+	case 1:
+		a = &tokenAnswer{kind: "ok", idToken: mk(func(o *tokOpts) { o.email = nil }).raw} // no e-mail claim
+	case 2:
+		a = &tokenAnswer{kind: "ok", idToken: mk(func(o *tokOpts) { o.email = "" }).raw}
+	case 3:
+		a = &tokenAnswer{kind: "ok", idToken: mk(func(o *tokOpts) { o.email = 7 }).raw}
+	case 4:
+		a = &tokenAnswer{kind: "ok", idToken: mk(func(o *tokOpts) { o.email = []string{"user@example.com"} }).raw}
+	case 5:
+		a = &tokenAnswer{kind: "ok", idToken: mk(func(o *tokOpts) { o.email = "user@evil.test" }).raw, refresh: w.regOpaque("rt-new")}
+	case 6:
+		a = &tokenAnswer{kind: "ok", idToken: mk(func(o *tokOpts) { o.valid = false }).raw}
+	case 7:
+		a = &tokenAnswer{kind: "ok", idToken: mk(func(o *tokOpts) { o.expIn = -time.Hour }).raw}
+	case 8:
+		a = &tokenAnswer{kind: "invalid_grant", desc: "revoked"}
+	case 9:
+		a = &tokenAnswer{kind: []string{"500", "malformed", "neterr", "invalid_client"}[rng.Intn(4)]}
+	case 10:
+		a = &tokenAnswer{kind: "ok", idToken: mk(func(o *tokOpts) { o.groups = "not-an-array" }).raw, refresh: w.regOpaque("rt-new2")}
+	default:
+		a = &tokenAnswer{kind: "ok", idToken: mk(func(o *tokOpts) {}).raw}
+	}
+	w.plain("/data", reqSpec{refresh: a, accept: accept, note: fmt.Sprintf("refresh-due request, answer kind %d", kind%12)}, rng)
+	w.plain("/data2", reqSpec{note: "request after the refresh attempt"}, rng)
 }
 
 func (w *world) newBrowser() {
@@ -942,7 +1049,16 @@ func (w *world) randomWalk(prop string, rng *mrand.Rand, n int) {
 				ir = l[rng.Intn(len(l))]
 			}
 			if ir != nil {
-				switch rng.Intn(4) {
+				switch rng.Intn(5) {
+				case 4:
+					c := w.authorize(ir)
+					o := w.randomTokOpts(rng, true)
+					o.nonce = c.nonce
+					tok := w.mintWith(o, rng)
+					obs := w.do(reqSpec{rawURI: "/cb?error=server_error&error_description=x&state=" + url.QueryEscape(ir.state) + "&code=" + c.code, exchange: &tokenAnswer{kind: "ok", idToken: tok.raw}, note: "provider error together with a code"})
+					if obs != nil && obs["class"] == "redirectLocal" {
+						T.oracle("C03", "a callback carrying a provider error yielded a session or contacted the token endpoint", M{"class": obs["class"]}, w.replay())
+					}
 				case 0:
 					w.callback(ir.state, w.authorize(ir), w.randomTokOpts(rng, true), "", reqSpec{note: "callback with a (possibly stale) state"}, rng)
 				case 1:
